@@ -53,6 +53,8 @@ type Ev struct {
 	Pl2     *[]int    `json:"pl2,omitempty"`
 	Pl3     *[]int    `json:"pl3,omitempty"`
 	Hashes  *[]string `json:"hashes,omitempty"`
+	ScrNo   string    `json:"scrNo,omitempty"`
+	ScrWith string    `json:"scrWith,omitempty"`
 	FenText string    `json:"fenText,omitempty"`
 	// transp / uciPosition
 	Root   *proj.Pos `json:"root,omitempty"`
@@ -86,6 +88,8 @@ type rec struct {
 	tr   bool
 	rng  *rand.Rand
 	root string
+	// a second board from board.StartPos() that is played on between the operations of the recorded one
+	shadow *board.Board
 }
 
 var tru = true
@@ -148,6 +152,13 @@ func (r *rec) observe(b *board.Board, e *Ev, judged bool) {
 }
 
 func (r *rec) emit(e *Ev) {
+	if r.shadow != nil && r.rng.Intn(2) == 0 {
+		if lm := proj.Playable(r.shadow, move.NewStore()); len(lm) > 0 && len(board.VerifHashes(r.shadow)) < 100 {
+			r.shadow.MakeMove(lm[r.rng.Intn(len(lm))])
+		} else {
+			r.shadow = board.StartPos()
+		}
+	}
 	e.T = r.t
 	if err := r.enc.Encode(e); err != nil {
 		panic(err)
@@ -159,6 +170,13 @@ func (r *rec) load(fen string) *board.Board {
 	b, err := board.FromFEN(fen)
 	if err != nil {
 		panic(fmt.Sprintf("corpus fen rejected: %q: %v", fen, err))
+	}
+	if fen == StartPosFEN {
+		// the start position as the driver creates it, with another start-position board alive and in use
+		b = board.StartPos()
+		r.shadow = board.StartPos()
+	} else {
+		r.shadow = nil
 	}
 	r.t++
 	r.root = fen
@@ -172,6 +190,7 @@ func (r *rec) load(fen string) *board.Board {
 }
 
 func (r *rec) make(b *board.Board, m move.Move, legal bool) board.Reverse {
+	dbl := b.SquaresToPiece[m.From()] == Pawn && (m.To()-m.From() == 16 || m.From()-m.To() == 16)
 	rv := b.MakeMove(m)
 	mi := int(m)
 	e := &Ev{Ev: "make", M: &mi}
@@ -179,6 +198,17 @@ func (r *rec) make(b *board.Board, m move.Move, legal bool) board.Reverse {
 		e.Illegal = &tru
 	}
 	r.observe(b, e, legal)
+	if legal && r.obs["hash"] {
+		// what the hash would be with and without an en-passant target: the specification decides which one the
+		// position must have (the target counts only when a capture is legal)
+		cp := *b
+		cp.EnPassant = 0
+		e.ScrNo = proj.H(board.VerifScratchHash(&cp))
+		if dbl {
+			cp.EnPassant = (m.From() + m.To()) / 2
+			e.ScrWith = proj.H(board.VerifScratchHash(&cp))
+		}
+	}
 	r.emit(e)
 	return rv
 }
@@ -322,7 +352,14 @@ func (r *rec) positions(corpus []string, rawEp bool) {
 	}
 	for !r.full() {
 		if r.obs["status"] && r.rng.Intn(2) == 0 {
-			r.load(gen.BoxedKing(r.rng, r.rng.Intn(2) == 0))
+			switch r.rng.Intn(4) {
+			case 0:
+				r.load(gen.BlockStress(r.rng))
+			case 1:
+				r.load(gen.EpOnlyMove(r.rng))
+			default:
+				r.load(gen.BoxedKing(r.rng, r.rng.Intn(2) == 0))
+			}
 			continue
 		}
 		pr := profiles[r.rng.Intn(len(profiles))]
@@ -341,7 +378,11 @@ func (r *rec) walk(corpus []string, depth int) {
 			r.tree(r.load(fen), 2)
 			continue
 		}
-		b := r.load(r.source(corpus, false))
+		src := r.source(corpus, false)
+		if r.rng.Intn(8) == 0 {
+			src = StartPosFEN
+		}
+		b := r.load(src)
 		switch r.rng.Intn(8) {
 		case 0, 1, 2:
 			r.tree(b, 2)
